@@ -133,8 +133,8 @@ def oracle(case, res):
             st.append((e.words, topidx[T], len(st)))
             if e.words[0] == "uwait" and e.words[1] in npush:
                 u = e.words[1]
-                for (u2, W2) in wait_open:
-                    if u2 == u:
+                for (u2, W2), o2 in wait_open.items():
+                    if u2 == u and o2["pushes"] == 0:      # handed over but not yet resumed does not count
                         return "generator error: two waits outstanding on %s" % u, stats
                 wait_open[(u, T)] = {"pushes": 0, "published": False, "c": e}
                 nwait[u] += 1
@@ -169,6 +169,8 @@ def oracle(case, res):
             o = sig_open.get((e.words[1], T))
             if o:
                 o["spun"] = True
+                o["nspin"] = o.get("nspin", 0) + 1
+                stats["maxspin"] = max(stats.get("maxspin", 0), o["nspin"])
         elif e.kind == "P" and e.words[1] in npush:
             u, pid = e.words[1], e.words[0]
             if pid == "uncond.publish":
@@ -239,8 +241,8 @@ class Prog:
     def exp(self, t, s, v):
         self.expect.append((t, self.op(t, s), v))
 
-    def text(self, workers, seed, pswitch):
-        c = trace.case_text(workers, seed, self.objs, self.threads, pswitch=pswitch, maxsteps=30000)
+    def text(self, workers, seed, pswitch, maxsteps=30000):
+        c = trace.case_text(workers, seed, self.objs, self.threads, pswitch=pswitch, maxsteps=maxsteps)
         return c + "".join("# expect %d %d %d\n" % e for e in self.expect)
 
 
@@ -401,7 +403,76 @@ def chain(r, p, i, unsafe, rounds):
     return [W, sigs[0]]
 
 
-FAMILIES = ["handoff", "pingpong", "spsc", "relay", "chain", "multi"]
+def twowaiters(r, p, i, unsafe, n):
+    """n different waiters, one after the other, on ONE variable, all served by a single signaller thread
+    which announces the next rendezvous (on behalf of the next waiter) right after its previous signal
+    returned - i.e. possibly while the previous waiter, already handed over, still sits in a run queue"""
+    u = "u%d" % i
+    p.objs += ["%s uncond" % u, "a_%s var 0" % u] + ["s%d_%d var 0" % (i, k) for k in range(1, n + 1)]
+    S = p.new_thread()
+    p.op(0, "create %d" % S)
+    ws = []
+    for k in range(1, n + 1):
+        W = p.new_thread()
+        ws.append(W)
+        p.op(S, "add a_%s 1" % u)
+        p.op(S, "create %d%s" % (W, " pf" if unsafe and r.chance(1, 2) else ""))
+        if unsafe:
+            ysafe(r, p, W, 1)
+        p.op(W, "uwait %s" % u)
+        p.exp(W, "get s%d_%d" % (i, k), 40 + k)
+        ysafe(r, p, W, 1)
+        ysafe(r, p, S, 1)
+        p.op(S, "set s%d_%d %d" % (i, k, 40 + k))
+        p.op(S, "usignal %s" % u)
+    for W in ws:
+        p.op(S, "join %d" % W)
+    return [S]
+
+
+FAMILIES = ["handoff", "pingpong", "spsc", "relay", "chain", "twowaiters", "multi"]
+HOLD_KS = [5, 20, 60]
+
+
+def sweep_cases(r, reps=1):
+    """targeted preemption (lib_interp `hold <point> <moves> <percent>`): for every POINT id of the uncond
+    routines a participant arriving there is, with probability 1/2, held back until k real moves of the others
+    have happened (a delayed publication = a long early-signal spin; a signaller delayed between read / clear /
+    push while the waiter and third threads run on).  A ticker thread supplies moves when everybody else waits."""
+    cases = []
+    for _ in range(reps):
+        for pid in POINTS:
+            for k in HOLD_KS:
+                for short in (True, False):
+                    p = Prog()
+                    ticker = r.chance(1, 2)
+                    workers = r.rng(3, 4) if ticker else r.rng(2, 4)
+                    joins = []
+                    if ticker:
+                        T = p.new_thread()
+                        p.threads[T] = ["nop"] * r.rng(40, 90)
+                        p.op(0, "create %d pf" % T)
+                        joins.append(T)
+                    unsafe = r.chance(2, 3)
+                    f = r.choice(["handoff", "twowaiters", "pingpong"] if short else ["chain", "spsc", "pingpong", "twowaiters", "relay"])
+                    if f == "handoff":
+                        joins += pair_handoff(r, p, 0, unsafe)
+                    elif f == "twowaiters":
+                        joins += twowaiters(r, p, 0, unsafe, 2 if short else r.rng(3, 5))
+                    elif f == "pingpong":
+                        joins += pair_pingpong(r, p, 0, unsafe, 1 if short else r.rng(2, 4))
+                    elif f == "chain":
+                        joins += chain(r, p, 0, unsafe, r.rng(3, 6))
+                    elif f == "spsc":
+                        joins += pair_spsc(r, p, 0, unsafe, r.rng(2, 4))
+                    else:
+                        joins += relay(r, p, 0, unsafe, r.rng(2, 4))
+                    for t in joins:
+                        p.op(0, "join %d" % t)
+                    for _s in range(2):
+                        txt = p.text(workers, r.rng(1, 1 << 30), r.choice([10, 30, 50, 70])) + "hold %s %d 50\n" % (pid, k)
+                        cases.append({"family": "hold:%s/%s" % (pid, f), "workers": workers, "unsafe": unsafe, "text": txt})
+    return cases
 
 
 def gen_program(r, fam, workers):
@@ -418,10 +489,12 @@ def gen_program(r, fam, workers):
         joins += relay(r, p, 0, unsafe, r.rng(1, 4))
     elif fam == "chain":
         joins += chain(r, p, 0, unsafe, r.rng(2, 5))
+    elif fam == "twowaiters":
+        joins += twowaiters(r, p, 0, unsafe, r.rng(2, 4))
     else:
         k = r.rng(2, 3)
         for i in range(k):
-            f = r.choice(["handoff", "pingpong", "spsc", "relay", "chain"])
+            f = r.choice(["handoff", "pingpong", "spsc", "relay", "chain", "twowaiters"])
             us = unsafe and i == 0
             if f == "handoff":
                 joins += pair_handoff(r, p, i, us)
@@ -431,6 +504,8 @@ def gen_program(r, fam, workers):
                 joins += pair_spsc(r, p, i, us, r.rng(1, 3))
             elif f == "chain":
                 joins += chain(r, p, i, us, r.rng(2, 3))
+            elif f == "twowaiters":
+                joins += twowaiters(r, p, i, us, r.rng(2, 3))
             else:
                 joins += relay(r, p, i, us, r.rng(1, 3))
     for t in joins:
@@ -459,9 +534,40 @@ def stress_cases(r, n):
     return cases
 
 
+def longspin_cases(r, n):
+    """very early signals: the waiter's publication is held back for thousands of moves of a ticker thread, so
+    that the signaller goes through hundreds to thousands of spin iterations (a bounded spin that gives up, or
+    a spin counter that overflows into another path, shows up here)"""
+    cases = []
+    for i in range(n):
+        p = Prog()
+        # the spin has to outlast wall-clock bounds, too (a spin limited in cycles): the biggest shapes keep the
+        # signaller spinning for roughly 0.5 - 1 s
+        nt, nn = [(1, 400), (1, 1500), (1, 3500), (2, 4000), (1, 3500), (2, 4000)][i % 6]
+        Ts = []
+        for _ in range(nt):
+            T = p.new_thread()
+            Ts.append(T)
+            p.threads[T] = ["nop"] * nn
+            p.op(0, "create %d pf" % T)
+        k = r.below(3)
+        if k == 0:
+            joins = pair_handoff(r, p, 0, True)
+        elif k == 1:
+            joins = twowaiters(r, p, 0, True, 2)
+        else:
+            joins = chain(r, p, 0, True, 2)
+        for t in joins + Ts:
+            p.op(0, "join %d" % t)
+        w = r.rng(3, 4) if nt == 1 else 4
+        txt = p.text(w, r.rng(1, 1 << 30), r.choice([50, 80, 95]), maxsteps=200000) + "hold uncond.publish 100000 100\n"
+        cases.append({"family": "longspin", "workers": w, "unsafe": True, "text": txt})
+    return cases
+
+
 def gen_cases(ctx, n):
     r = ctx.rng
-    cases = stress_cases(r, max(10, n // 4))
+    cases = sweep_cases(r, 1 if n < 1000 else 12) + longspin_cases(r, 6 if n < 1000 else 60) + stress_cases(r, max(10, n // 4))
     for i in range(n):
         fam = FAMILIES[i % len(FAMILIES)]
         workers = [1, 2, 2, 3, 4][(i // len(FAMILIES)) % 5]
@@ -578,15 +684,16 @@ def summarize(ctx, results):
         dist[k] = dist.get(k, 0) + 1
         v = (o["res"]["verdict"] or "none").split()[0]
         verd[v] = verd.get(v, 0) + 1
-        for x in st:
+        for x in ("rendezvous", "early", "late"):
             st[x] += o["stats"].get(x, 0)
+        st["maxspin"] = max(st.get("maxspin", 0), o["stats"].get("maxspin", 0))
     return hist, spins, dist, verd, st
 
 
 def run(ctx):
     broken, log = ctx.prove("Properties_C08.v", "Properties_C08")
     exe, drv = build(ctx)
-    n = 150 if not ctx.thorough else 3000
+    n = 126 if not ctx.thorough else 3000
     cases = load_corpus() + gen_cases(ctx, n)
     results = run_until_failure(ctx, exe, drv, cases)
     hist, spins, dist, verd, st = summarize(ctx, results)
@@ -598,7 +705,8 @@ def run(ctx):
         "model_events_replayed": sum(int(v.split()[1]) for o in results for v in o["model"] if v.startswith("ok")),
         "disagreements": len(bad_model), "oracle_failures": len(bad_oracle),
         "input_distribution": dist, "verdicts": verd, "point_histogram": hist, "uncond.sig.spin": spins,
-        "rendezvous": st["rendezvous"], "signals_early(spun)": st["early"], "signals_late": st["late"]}
+        "rendezvous": st["rendezvous"], "signals_early(spun)": st["early"], "signals_late": st["late"],
+        "longest_spin_of_one_signal": st.get("maxspin", 0)}
     for i in (0, len(results) // 2, len(results) - 1):
         o = results[i]
         ctx.cov["samples"].append({"case": o["case"]["text"], "verdict": o["res"]["verdict"], "model": o["model"],
